@@ -46,7 +46,7 @@ class YowInterfaceLayer(YowLayer):
         """
         :type entity: IqProtocolEntity
         """
-        if entity.getTag() == "iq":
+        if entity.getTag() == "iq" and entity.getType() in (IqProtocolEntity.TYPE_RESULT, IqProtocolEntity.TYPE_ERROR):
             iq_id = entity.getId()
             if iq_id in self.iqRegistry:
                 originalIq, successClbk, errorClbk = self.iqRegistry[iq_id]
